@@ -148,24 +148,35 @@ def rule_a(prog, rep):
     rep.floor('C11.a', n, 25, 'WbFunction variants classified')
 
 
-def _sys_guard_ok(cond, b, keyname):
-    """`!filter_sys || !<key>.starts_with(SYSTEM_TOPIC_ROOT_PREFIX)` (also when it lives in a predicate helper)"""
+def _sys_guard_eval(cond, b, keyname, F, S):
+    """value of a guard condition under filter_sys = F and <key>.starts_with($SYS/) = S; raises ValueError on anything else"""
     from ..ir import inline_predicate
     cond = inline_predicate(b.crate, cond)
     while cond.get('k') == 'block' and not cond.get('stmts') and 'tail' in cond:
         cond = cond['tail']
-    if cond.get('k') != 'binary' or cond.get('op') != 'Or':
+    k = cond.get('k')
+    if k == 'unary' and cond.get('op') == 'Not':
+        return not _sys_guard_eval(cond['e'], b, keyname, F, S)
+    if k == 'binary' and cond.get('op') in ('Or', 'And'):
+        l = _sys_guard_eval(cond['l'], b, keyname, F, S)
+        r = _sys_guard_eval(cond['r'], b, keyname, F, S)
+        return (l or r) if cond['op'] == 'Or' else (l and r)
+    if k == 'path' and b.origins(cond) == {'param(filter_sys)'}:
+        return F
+    if k == 'call' and short(callee(cond)) == 'starts_with' and 'SYSTEM_TOPIC_ROOT_PREFIX' in str(cond['args'][1]) and \
+            all(keyname in x for x in b.origins(cond['args'][0])):
+        return S
+    raise ValueError(k)
+
+
+def _sys_guard_ok(cond, b, keyname, branch=True):
+    """the guarded code runs exactly when `!filter_sys || !<key>.starts_with(SYSTEM_TOPIC_ROOT_PREFIX)` - whatever the spelling
+    (negated helper, De Morgan form, swapped branches): compared on the truth table"""
+    try:
+        return all((_sys_guard_eval(cond, b, keyname, F, S) == branch) == ((not F) or (not S))
+                   for F in (False, True) for S in (False, True))
+    except (ValueError, KeyError, IndexError):
         return False
-    l, lp = strip_not(cond['l'])
-    r, rp = strip_not(cond['r'])
-    if lp or rp:
-        return False
-    if not (l.get('k') == 'path' and b.origins(l) == {'param(filter_sys)'}):
-        return False
-    if not (r.get('k') == 'call' and short(callee(r)) == 'starts_with' and 'SYSTEM_TOPIC_ROOT_PREFIX' in str(r['args'][1])):
-        return False
-    ko = b.origins(r['args'][0])
-    return all(keyname in x for x in ko)
 
 
 MIRROR = {'Set': ('Set', [0, 1], True), 'CSet': ('CSet', [0, 1, 2], True), 'Delete': ('Delete', [0], False), 'PDelete': ('PDelete', [0], False)}
@@ -200,8 +211,8 @@ def rule_b(prog, rep):
                     fo = b.origins(nd['args'][len(pos)])
                     if fo != {'lit(False)'}:
                         problems.append(f'force <- {sorted(fo)}: the follower would apply what the leader may have rejected')
-                g = [it for it in guards(tuple(a for a in ()) + anc + (nd,)) if it[0] == 'if' and it[2] is True]
-                if not any(_sys_guard_ok(it[1], b, f'#{sv}.0') for it in g):
+                g = [it for it in guards(tuple(a for a in ()) + anc + (nd,)) if it[0] == 'if']
+                if not any(_sys_guard_ok(it[1], b, f'#{sv}.0', it[2]) for it in g):
                     problems.append('not under `!filter_sys || !key.starts_with(SYSTEM_TOPIC_ROOT_PREFIX)`')
             if problems:
                 rep.violation('C11.b', f'forward_api_call:{sv}', f'{f.file}:{arm.get("ln")}', '; '.join(problems),
